@@ -42,6 +42,7 @@
       :wtabv (let [t (table/weak-values 4)] (loop [j :range [1 (length d) 2]] (put t (mk (in d j)) (mk (in d (+ j 1))))) t)
       :wtabkv (let [t (table/weak 4)] (loop [j :range [1 (length d) 2]] (put t (mk (in d j)) (mk (in d (+ j 1))))) t)
       :proto (let [t (mk (in d 1))] (table/setproto t (mk (in d 2))) t)
+      :sproto (struct/with-proto (mk (in d 1)) ;(map mk (tuple/slice d 2)))
       :struct (struct ;(map mk (tuple/slice d 1)))
       (errorf "bad descriptor %p" d))
     d))
